@@ -150,17 +150,13 @@ func (it *Interp) opEmit(op *Op) {
 		}
 	}
 	cm := maskOf(op.Comps)
-	valid := true
+	argsOK := true
 	if op.E < 0 {
-		valid = cm == 0
+		argsOK = cm == 0
 	} else {
-		valid = it.alive(op.E) && cm&^it.M.Ents[op.E].Mask == 0
+		argsOK = it.alive(op.E) && cm&^it.M.Ents[op.E].Mask == 0
 	}
-	if !any {
-		// documented fast path: without observers of the type the call returns before looking at its arguments
-		valid = true
-	}
-	if valid && any {
+	if argsOK && any {
 		var m uint16
 		if op.E >= 0 {
 			m = it.M.Ents[op.E].Mask
@@ -169,41 +165,31 @@ func (it *Interp) opEmit(op *Op) {
 		it.evAt = it.M.Ents
 		it.emit(Emission{Ev: ev, Ent: op.E, New: m, Chg: cm, Kind: 2})
 	}
-	if valid {
-		it.run(op, true, func(b *Backend) {
-			b.W.Event(b.evT[ev]).For(compsOf(op.Comps)...).Emit(b.handle(op.E))
-		})
-		return
-	}
-	// invalid arguments are rejected only where an observer of the type is registered; a backend that runs with fewer
-	// observers than the model (policy DropObsOdd) may take the fast path instead
-	full, fast := []*Backend{}, []*Backend{}
+	// Documented fast path: without an observer of the type the call returns before looking at its arguments. Invalid
+	// arguments are therefore rejected only by a world that has such an observer registered; that is decided per
+	// backend, because a backend may run with fewer observers than the model (policy DropObsOdd) or with one more (it
+	// did not follow an in-callback unregistration).
 	for _, b := range it.B {
 		has := false
 		for j, o := range it.M.Obs {
-			if o.Registered && o.Ev == ev && j < len(b.obsOn) && b.obsOn[j] {
+			if o.Ev == ev && j < len(b.obsOn) && b.obsOn[j] {
 				has = true
 			}
 		}
-		if has {
-			full = append(full, b)
-		} else {
-			fast = append(fast, b)
+		p := try(func() { b.W.Event(b.evT[ev]).For(compsOf(op.Comps)...).Emit(b.handle(op.E)) })
+		if !argsOK && has && p == nil {
+			fail("reject|emit|no-panic", "%s step %d: invalid operation %v did not panic", b.Name, it.Step, op)
+		}
+		if (argsOK || !has) && p != nil {
+			fail("panic|emit|valid-call", "%s step %d: valid operation %v panicked: %v", b.Name, it.Step, op, p)
 		}
 	}
-	all := it.B
-	it.B = full
-	it.run(op, false, func(b *Backend) {
-		b.W.Event(b.evT[ev]).For(compsOf(op.Comps)...).Emit(b.handle(op.E))
-	})
-	it.B = fast
-	for _, b := range fast {
-		if p := try(func() { b.W.Event(b.evT[ev]).For(compsOf(op.Comps)...).Emit(b.handle(op.E)) }); p != nil {
-			it.B = all
-			fail("panic|emit|fast-path", "%s step %d: Emit without a registered observer of the type panicked: %v", b.Name, it.Step, p)
+	if !argsOK && any {
+		it.count("rejected-emit")
+		if op.Sub != "" {
+			it.count("misuse-" + op.Sub)
 		}
 	}
-	it.B = all
 }
 
 // onEvent is the body of every observer callback.
